@@ -120,7 +120,7 @@ func (e *protoExec) opInner(op string) string {
 		return i, i >= 0 && i < e.n
 	}
 	switch f[0] {
-	case "p.newterm", "p.lead", "p.elect", "p.electm", "p.add", "p.write", "p.racewrite", "p.restart", "p.crash", "p.trunc", "p.cut":
+	case "p.newterm", "p.lead", "p.elect", "p.electm", "p.add", "p.write", "p.racewrite", "p.racesync", "p.restart", "p.crash", "p.trunc", "p.cut":
 		// the model talks about settled states: everything deliverable has been delivered
 		if !e.c.WaitSettled(8 * time.Second) {
 			e.unrel = true
@@ -268,6 +268,14 @@ func (e *protoExec) opInner(op string) string {
 			return mark("err:no-such-node")
 		}
 		return mark(e.c.RaceWriteNewTerm(i, atoi(f[2]), int64(atoi(f[3]))))
+	case "p.racesync":
+		// p.racesync <leader> <follower> <id> <term>
+		l, ok1 := node(f[1])
+		fo, ok2 := node(f[2])
+		if !ok1 || !ok2 {
+			return mark("err:no-such-node")
+		}
+		return mark(e.c.RaceAppendNewTerm(l, fo, atoi(f[3]), int64(atoi(f[4]))))
 	case "p.cut":
 		if i, ok := node(f[1]); ok {
 			e.c.Cut(i)
@@ -284,7 +292,14 @@ func (e *protoExec) opInner(op string) string {
 		if !ok {
 			return mark("err:no-such-node")
 		}
-		return mark(e.c.Truncate(i, int64(atoi(f[2])), int64(atoi(f[3]))))
+		r := mark(e.c.Truncate(i, int64(atoi(f[2])), int64(atoi(f[3]))))
+		if strings.HasPrefix(strings.TrimPrefix(r, "~"), "head=") {
+			// a Truncate request the script made up was carried out (the node was FENCED in that term): no
+			// leader sends such a request - what follows (acknowledged entries gone, a log that restarts at
+			// a later offset) is the script's doing and is not looked at
+			e.unrel = true
+		}
+		return r
 	case "p.crash":
 		if i, ok := node(f[1]); ok {
 			if err := e.c.Crash(i); err != nil {
@@ -626,6 +641,14 @@ func protoOracle(ops, impl []string, which string) string {
 					return fmt.Sprintf("op %d: n%s answered the new-term request with head %s but its log then ended at %s: the log grew after the node was fenced", i, f[1], strings.TrimPrefix(p[0], "head="), strings.TrimPrefix(p[1], "wal="))
 				}
 			}
+		case "p.racesync":
+			// C04: the same for a follower whose sync goroutine had not yet run when it was fenced
+			if want("C04") && strings.HasPrefix(out, "head=") {
+				p := strings.Fields(out)
+				if len(p) == 2 && strings.TrimPrefix(p[0], "head=") != strings.TrimPrefix(p[1], "wal=") {
+					return fmt.Sprintf("op %d: the follower n%s answered the new-term request with head %s but its log then ended at %s: an appended entry became visible after the node was fenced", i, f[2], strings.TrimPrefix(p[0], "head="), strings.TrimPrefix(p[1], "wal="))
+				}
+			}
 		case "p.write":
 			if out == "ok" {
 				acked[f[2]] = true
@@ -906,6 +929,14 @@ func (C03) Nontrivial(ops []string, outs []string) bool {
 // genProtoDirected adds the situations the single properties are about to a random script.
 func genProtoDirected(rng *rand.Rand, which string, i int) []string {
 	ops := genProtoCase(rng, i%3 == 0)
+	if which == "C04" && i%5 == 1 {
+		// an entry is on its way into a follower (appended, its sync goroutine not yet run) when the follower
+		// is fenced: the head it reports is the end of its log; the election that follows sees it
+		w1, w2, w3 := 10+i, 400+i, 800+i
+		fo := 1 + i%2
+		return []string{"p.init n=3", "p.elect 0 1", fmt.Sprintf("p.write 0 %d", w1), "p.settle", "p.state",
+			fmt.Sprintf("p.racesync 0 %d %d 2", fo, w2), "p.elect 0 2", "p.settle", "p.state", fmt.Sprintf("p.write 0 %d", w3), "p.settle", "p.state", "p.read 0"}
+	}
 	if which == "C04" && i%5 == 3 {
 		// the same, with the new leader's process gone when the deposed leader reconnects
 		return []string{"p.init n=3", "p.elect 0 1", fmt.Sprintf("p.write 0 %d", 10+i), "p.settle", "p.cut 0", fmt.Sprintf("p.write 0 %d", 100+i), fmt.Sprintf("p.write 0 %d", 200+i),
@@ -1012,6 +1043,9 @@ func renumberTerms(ops []string) []string {
 		case "p.racewrite":
 			t++
 			f[3] = fmt.Sprint(t)
+		case "p.racesync":
+			t++
+			f[4] = fmt.Sprint(t)
 		case "p.newterm":
 			f[2] = fmt.Sprint(t)
 		case "p.lead":
